@@ -21,22 +21,22 @@ import (
 // exp module, whose go.mod replaces go.uber.org/zap by the working tree), plus
 // SSA for them and for all their dependencies (including std log, log/slog).
 type Program struct {
-	Repo     string
-	Fset     *token.FileSet
-	Pkgs     map[string]*packages.Package // by import path, all (incl. deps)
-	Roots    []*packages.Package          // the zap + exp packages
-	SSA      *ssa.Program
-	SSAPkg   map[string]*ssa.Package
-	GOOS     string
-	GOARCH   string
-	NumFuncs int
+	Repo      string
+	Fset      *token.FileSet
+	Pkgs      map[string]*packages.Package // by import path, all (incl. deps)
+	Roots     []*packages.Package          // the zap + exp packages
+	SSA       *ssa.Program
+	SSAPkg    map[string]*ssa.Package
+	GOOS      string
+	GOARCH    string
+	NumFuncs  int
 	rootFuncs []*ssa.Function
 	lockSum   map[*ssa.Function]map[string]bool
 	sites     map[*ssa.Function][]ssa.CallInstruction
 }
 
 const (
-	ZapPath = "go.uber.org/zap"
+	ZapPath  = "go.uber.org/zap"
 	CorePath = "go.uber.org/zap/zapcore"
 )
 
